@@ -579,7 +579,7 @@ func TestVerifC05(t *testing.T) {
 		t.Fatalf("only %d seed documents could be built", len(seeds))
 	}
 	c05SeedDocs = seeds
-	n := r.N(12000, 1500000)
+	n := r.N(12000, 600000)
 	if os.Getenv("VERIF_C05_SMALL") != "" {
 		n /= 20 // the race-detector build runs a twentieth of the cases
 	}
@@ -593,7 +593,7 @@ func TestVerifC05(t *testing.T) {
 
 	// block repetition at large sizes: super-linear behaviour shows here
 	if os.Getenv("VERIF_C05_SMALL") == "" {
-		r.Phase("large-repeats", r.N(16, 640), func(c *kit.Case) {
+		r.Phase("large-repeats", r.N(16, 320), func(c *kit.Case) {
 			i := c.Rng.Intn(len(seeds))
 			base := seeds[i]
 			what := ""
